@@ -101,11 +101,8 @@ def err_kind(v):
         x = x[2][0]
     if x[0] == 'agg' and x[1].endswith('ShmError'):
         if x[2] == 'SyscallError':
-            origin = None
-            for y in psi.walk(x):
-                if y[0] == 'c' and isinstance(y[1], tuple) and y[1][0] == 's' and y[1][1].endswith('\0'):
-                    origin = y[1][1].rstrip('\0')
-            return ('Syscall', origin)
+            lits = common.c_string_literals(x)
+            return ('Syscall', lits[-1].rstrip('\0') if lits else None)
         return (x[2],)
     return None
 
